@@ -7,3 +7,15 @@ Definition check_case : C27Chk.case -> N := C27Chk.check_case_rn reserved_names.
 Definition mk_case := C27Chk.mk_case.
 
 Global Open Scope string_scope.
+
+(** A whole sequence of set_sparse_patterns calls (the property quantifies over sequences of
+    pattern sets): the results of the calls, the final disk and the final working-copy state. *)
+Fixpoint set_sparse_seq (rn : list name) (f : fs) (w : wc) (ps : list (list path))
+  : list result * fs * wc :=
+  match ps with
+  | [] => ([], f, w)
+  | p :: ps' =>
+      let '(o, w1) := set_sparse rn f w p in
+      let '(rs, f', w') := set_sparse_seq rn (o_fs o) w1 ps' in
+      (o_res o :: rs, f', w')
+  end.
